@@ -2,7 +2,7 @@
   Props/C03_Run.lean — in-place mutations, part 5: whole-object operators (`<<=`, `>>=`, `*=`, `&=`, `|=`, `^=`,
   `append`, `prepend`, `clear`), one step of any operation, and histories of operations on one object.
 
-  `step_eq_partial` collects the per-operation `ALG = SPEC` theorems of the other parts; `run_eq_partial` lifts it to
+  `step_eq` collects the per-operation `ALG = SPEC` theorems of the other parts; `run_eq` lifts it to
   every finite sequence of operations by induction over the operation list.  Error atomicity ("an invalid argument
   raises and the content is left as it was") and the partial-prefix exception are statements about `stepSpec`.
 -/
@@ -102,18 +102,14 @@ theorem append_frame (l : Bits) (b : Operand) :
 
 /-! ### one step -/
 
-/-- Outside the known-deviation regions every operation's code path computes its specification
-    (return value / exception and content). -/
-theorem step_eq_partial (l : Bits) (op : Op) (h : op.deviant l = false) : stepAlg l op = stepSpec l op := by
+/-- Every operation's code path computes its specification (return value / exception and content), for every content
+    and every argument. -/
+theorem step_eq (l : Bits) (op : Op) : stepAlg l op = stepSpec l op := by
   cases op with
   | append b => rfl
   | prepend b => rfl
-  | insert b pos =>
-    simp only [Op.deviant] at h
-    simp only [stepAlg, stepSpec, insert_eq_spec_partial l b pos h]
-  | overwrite b pos =>
-    simp only [Op.deviant] at h
-    simp only [stepAlg, stepSpec, overwrite_eq_spec_partial l b pos h]
+  | insert b pos => simp only [stepAlg, stepSpec, insert_eq_spec]
+  | overwrite b pos => simp only [stepAlg, stepSpec, overwrite_eq_spec]
   | delItem i => rfl
   | delSlice a b c => rfl
   | setItem i v =>
@@ -122,30 +118,15 @@ theorem step_eq_partial (l : Bits) (op : Op) (h : op.deviant l = false) : stepAl
     | bits b => simp only [stepAlg, stepSpec, setItemBits_eq_spec]
   | setSlice a b c v =>
     cases v with
-    | int v =>
-      simp only [Op.deviant, Bool.or_eq_false_iff] at h
-      simp only [stepAlg, stepSpec, setSliceInt_eq_spec_partial l a b c v h.1 h.2]
+    | int v => simp only [stepAlg, stepSpec, setSliceInt_eq_spec]
     | bits v => rfl
   | replace old new s e count al => simp only [stepAlg, stepSpec, replace_eq_spec]
   | reverse s e => simp only [stepAlg, stepSpec, reverse_eq_spec]
   | rol k s e => simp only [stepAlg, stepSpec, rol_eq_spec]
   | ror k s e => simp only [stepAlg, stepSpec, ror_eq_spec]
-  | set v p =>
-    cases p with
-    | all =>
-      have hl : l ≠ [] := by
-        intro hl; subst hl
-        simp [Op.deviant, setAllEmpty] at h
-      simp only [stepAlg, stepSpec, set_all_eq_spec_partial l v hl]
-    | one i => simp only [stepAlg, stepSpec, set_one_eq_spec]
-    | many ps => simp only [stepAlg, stepSpec, set_many_eq_spec]
-    | range a b c =>
-      simp only [Op.deviant] at h
-      simp only [stepAlg, stepSpec, set_range_eq_spec_partial l v a b c h]
+  | set v p => simp only [stepAlg, stepSpec, set_eq_spec]
   | invert p => simp only [stepAlg, stepSpec, invert_eq_spec]
-  | byteswap f s e rep =>
-    simp only [Op.deviant] at h
-    simp only [stepAlg, stepSpec, byteswap_eq_spec_partial l f s e rep h]
+  | byteswap f s e rep => simp only [stepAlg, stepSpec, byteswap_eq_spec]
   | ishl n => simp only [stepAlg, stepSpec, ishl_eq_spec]
   | ishr n => simp only [stepAlg, stepSpec, ishr_eq_spec]
   | imul n => simp only [stepAlg, stepSpec, imul_eq_spec]
@@ -153,18 +134,6 @@ theorem step_eq_partial (l : Bits) (op : Op) (h : op.deviant l = false) : stepAl
   | ior b => rfl
   | ixor b => rfl
   | clear => rfl
-
-/-- The full statement `∀ l op, stepAlg l op = stepSpec l op` is false on the pinned tree: one witness per region. -/
-theorem step_eq_witness :
-    stepAlg (List.replicate 6 false) (.set true (.range 5 (-1) (-1))) ≠
-      stepSpec (List.replicate 6 false) (.set true (.range 5 (-1) (-1))) ∧
-    stepAlg [] (.set true .all) ≠ stepSpec [] (.set true .all) ∧
-    stepAlg [true] (.insert (.lit []) 5) ≠ stepSpec [true] (.insert (.lit []) 5) ∧
-    stepAlg (List.replicate 6 false) (.setSlice (some 4) (some 0) (some (-1)) (.int 1)) ≠
-      stepSpec (List.replicate 6 false) (.setSlice (some 4) (some 0) (some (-1)) (.int 1)) ∧
-    stepAlg (natToBits 24 0x010203) (.byteswap (.int 2) (some 0) (some 8) false) ≠
-      stepSpec (natToBits 24 0x010203) (.byteswap (.int 2) (some 0) (some 8) false) := by
-  refine ⟨by decide, by decide, by decide, by decide, by decide⟩
 
 /-- Error atomicity: when an operation raises, the content is what it was — for every operation except `set` / `invert`
     over an iterable of positions (lists and ranges), which keep the valid prefix (`set_partial_prefix`). -/
@@ -202,52 +171,13 @@ theorem error_atomic (l : Bits) (op : Op) (e : Err)
   | byteswap f s e rep => exact atomicRet_err _ _ _ h
   | _ => exact atomic_err _ _ _ h
 
-/-- The same for the code path (there `set` over a `range` is atomic too): no exception leaves a half-done mutation. -/
+/-- The same for the code path: no exception leaves a half-done mutation. -/
 theorem error_atomic_alg (l : Bits) (op : Op) (e : Err)
     (hop : ∀ v ps, op ≠ .set v (.many ps)) (hop' : ∀ ps, op ≠ .invert (.many ps))
-    (hr' : ∀ a b c, op ≠ .invert (.range a b c))
+    (hr : ∀ v a b c, op ≠ .set v (.range a b c)) (hr' : ∀ a b c, op ≠ .invert (.range a b c))
     (h : (stepAlg l op).ret = .error e) : (stepAlg l op).bits = l := by
-  cases op with
-  | append b => simp [stepAlg] at h
-  | prepend b => simp [stepAlg] at h
-  | clear => simp [stepAlg] at h
-  | set v p =>
-    cases p with
-    | all =>
-      simp only [stepAlg, Alg.set] at h ⊢
-      by_cases hl : l.length = 0
-      · simp [hl]
-      · simp [hl] at h
-    | one i =>
-      simp only [stepAlg, Alg.set, Alg.setLoop] at h ⊢
-      cases hs : PyL.setIndex l i v with
-      | error e' => rfl
-      | ok l' => simp [hs] at h
-    | many ps => exact absurd rfl (hop v ps)
-    | range a b c =>
-      simp only [stepAlg, Alg.set] at h ⊢
-      split
-      · rfl
-      · rename_i hc
-        simp only [hc, if_false] at h
-        exact atomic_err _ _ _ h
-  | invert p =>
-    cases p with
-    | all => simp [stepAlg, Alg.invert] at h
-    | one i =>
-      simp only [stepAlg, Alg.invert, Alg.invertLoop] at h ⊢
-      generalize (if i < 0 then i + (l.length : Int) else i) = q at h ⊢
-      by_cases hq : ¬(0 ≤ q ∧ q < (l.length : Int))
-      · rw [if_pos hq]
-      · rw [if_neg hq] at h
-        simp at h
-    | many ps => exact absurd rfl (hop' ps)
-    | range a b c => exact absurd rfl (hr' a b c)
-  | setItem i v => cases v <;> exact atomic_err _ _ _ h
-  | setSlice a b c v => cases v <;> exact atomic_err _ _ _ h
-  | replace old new s e count al => exact atomicRet_err _ _ _ h
-  | byteswap f s e rep => exact atomicRet_err _ _ _ h
-  | _ => exact atomic_err _ _ _ h
+  rw [step_eq] at h ⊢
+  exact error_atomic l op e hop hop' hr hr' h
 
 /-- Operations that are not length-changing by definition keep the length, whatever their arguments. -/
 theorem keepsLength_length (l : Bits) (op : Op) (h : op.keepsLength = true) :
@@ -298,52 +228,23 @@ theorem run_append (step : Bits → Op → Outcome) (ops₁ ops₂ : List Op) (l
         List.getLast?_eq_some_getLast (by simp)
       simp [hl]
 
-/-- For every finite sequence of operations on one object whose steps stay outside the known-deviation regions,
-    the code paths produce exactly the specified observations (return values, exceptions, contents) at every step.
-    Full statement (false on the pinned tree, see `step_eq_witness`): `∀ ops l, runAlg ops l = runSpec ops l`. -/
-theorem run_eq_partial (ops : List Op) (l : Bits) (h : goodRun ops l = true) : runAlg ops l = runSpec ops l := by
+/-- For every finite sequence of operations applied to one object, the code paths produce exactly the specified
+    observations (return values, exceptions, contents) at every step. -/
+theorem run_eq (ops : List Op) (l : Bits) : runAlg ops l = runSpec ops l := by
   induction ops generalizing l with
   | nil => rfl
   | cons op ops ih =>
-    simp only [goodRun, Bool.and_eq_true, Bool.not_eq_true'] at h
-    have hs := step_eq_partial l op h.1
     show stepAlg l op :: run stepAlg ops (stepAlg l op).bits = stepSpec l op :: run stepSpec ops (stepSpec l op).bits
-    rw [hs]
+    rw [step_eq]
     congr 1
-    exact ih _ h.2
+    exact ih _
 
-/-- Histories made of operations that have no deviation region at all need no side condition. -/
-theorem neverDeviant_not_deviant (l : Bits) (op : Op) (h : op.neverDeviant = true) : op.deviant l = false := by
-  cases op with
-  | setSlice a b c v =>
-    cases v with
-    | int v => simp [Op.neverDeviant] at h
-    | bits v => rfl
-  | set v p =>
-    cases p with
-    | all => simp [Op.neverDeviant] at h
-    | one i => simp [Op.deviant, setAllEmpty]
-    | many ps => simp [Op.deviant, setAllEmpty]
-    | range a b c => simp [Op.neverDeviant] at h
-  | insert b pos => simp [Op.neverDeviant] at h
-  | overwrite b pos => simp [Op.neverDeviant] at h
-  | byteswap f s e rep => simp [Op.neverDeviant] at h
-  | _ => rfl
-
-theorem run_eq_of_neverDeviant (ops : List Op) (l : Bits) (h : ∀ op ∈ ops, op.neverDeviant = true) :
-    runAlg ops l = runSpec ops l := by
-  apply run_eq_partial
-  induction ops generalizing l with
-  | nil => rfl
-  | cons op ops ih =>
-    simp only [goodRun, Bool.and_eq_true, Bool.not_eq_true']
-    exact ⟨neverDeviant_not_deviant l op (h op List.mem_cons_self),
-      ih _ (fun o ho => h o (List.mem_cons_of_mem _ ho))⟩
+/-- Hence the content after any history is the specified one. -/
+theorem run_final_bits (ops : List Op) (l : Bits) :
+    ((runAlg ops l).getLast?.map (·.bits)).getD l = ((runSpec ops l).getLast?.map (·.bits)).getD l := by
+  rw [run_eq]
 
 /-! ### non-vacuity -/
-example : goodRun [.insert (.lit [false, true]) 2, .rol 3 (some 1) none, .replace (.lit [true, true]) (.lit [false]) none none (some 2) false,
-    .byteswap .none none none true, .set true (.range 0 3 2), .setSlice none none (some (-1)) (.int 5), .imul 3]
-    [true, true, false, true, false, false] = true := by decide
 example : runAlg [.insert (.lit [false, true]) 2, .rol 3 (some 1) none, .delSlice none none (some 2), .ixor .self]
     [true, true, false, true, false, false] =
   [⟨.ok .none, [true, true, false, true, false, true, false, false]⟩,
